@@ -224,12 +224,22 @@ def t_diff(ctx, curve, shard, n):
         ex = [{"curve": curve, "a": 3, "b": 0, "sq": None, "sp": None, "inf_rep": 0},
               {"curve": curve, "a": 0, "b": 5, "sq": None, "sp": None, "inf_rep": 1},
               {"curve": curve, "a": 7, "b": r, "sq": None, "sp": 2, "inf_rep": 2}]
+    if shard in (2, 3):
+        # G2 representatives whose z is an Fp-multiple of the twist constant (or of its conjugate): the twisted z
+        # then has a zero coefficient in its Fp12 embedding
+        xi = [9, 1] if curve == "bn128" else [1, 1]
+        p_ = mc.CURVES[curve].p
+        ex = [{"curve": curve, "a": 5 + shard, "b": 7, "sq": xi if shard == 2 else [xi[0] * 5 % p_, (p_ - xi[1]) * 5 % p_],
+               "sp": None}]
     drive(ctx, f"diff{curve}{shard}", s_diff(curve), lambda c: o_diff(ctx, c), n, ex, shrink=False)
 
 
 def t_split(ctx, module, shard, n):
     name = module
-    drive(ctx, f"split{name}{shard}", s_split(name), lambda c: o_split(ctx, c), n, shrink=False)
+    curve = pc.CURVE_OF[name]
+    xi = [9, 1] if curve == "bn128" else [1, 1]
+    ex = [{"module": name, "pairs": [[3 + shard, 4, [xi[0] * (2 + shard), xi[1] * (2 + shard)], 2], [5, 6, None, None]]}]
+    drive(ctx, f"split{name}{shard}", s_split(name), lambda c: o_split(ctx, c), n, ex, shrink=False)
 
 
 def t_fexp(ctx, module, shard, n, model):
